@@ -91,7 +91,7 @@ Proof.
       assert (Hf : exists kids0 n0, flush (mkH (f :: stk) top buf nxt) = mkH (mkFrame (f_idx f) (f_q f) (f_attrs f) kids0 :: stk) top [] n0).
       { destruct buf; unfold flush, text_node, append_node; cbn [h_buf h_stack h_top h_next]; destruct f; eauto. }
       destruct Hf as [kids0 [n0 Hf]].
-      unfold close. rewrite Hf. cbn [h_stack h_top h_buf h_next is_nil].
+      unfold close. rewrite Hf. cbn [h_stack h_top h_buf h_next is_nil andb].
       unfold number_element, element_before_attrs.
       destruct (number_attrs (N.succ n0) (order_attrs false a)) as [l n1] eqn:En.
       (* children of the new element *)
@@ -141,35 +141,39 @@ Proof. intro ts. apply K_of_Forall. apply Forall_forall. intros; apply P_all. Qe
 
 Lemma top_level : forall ts st rest, h_stack st = [] -> h_buf st = [] ->
   forallb (fun t => negb (is_text t)) ts = true -> forallb tnormal ts = true ->
+  elems_ok (existsb is_ielem (h_top st)) ts = true ->
   run st (events_of_list ts ++ rest) =
   run (mkH [] (rev (fst (number_list true (h_next st) ts)) ++ h_top st) [] (snd (number_list true (h_next st) ts))) rest.
 Proof.
-  induction ts as [|t ts IH]; intros [stk top buf nxt] rest Hs Hb Ht Hn; cbn [h_stack h_buf h_top h_next] in *; subst.
+  induction ts as [|t ts IH]; intros [stk top buf nxt] rest Hs Hb Ht Hn He; cbn [h_stack h_buf h_top h_next] in *; subst.
   - reflexivity.
   - cbn [forallb] in Ht, Hn. apply andb_prop in Ht; destruct Ht as [Ht1 Ht2]. apply andb_prop in Hn; destruct Hn as [Hn1 Hn2].
     rewrite events_cons, <- app_assoc, number_list_cons. cbn [fst snd].
     destruct t as [q a kids|s|s|tg dt]; [| discriminate | |].
-    + cbn [events_of app]. rewrite <- app_assoc. cbn [app run]. unfold step at 1, flush_at_start, flush_if, flush. cbn [h_buf h_stack h_top h_next is_nil].
+    + cbn [elems_ok] in He. apply andb_prop in He; destruct He as [He1 He2].
+      destruct (existsb is_ielem top) eqn:Ex; [discriminate|].
+      cbn [events_of app]. rewrite <- app_assoc. cbn [app run]. unfold step at 1, flush_at_start, flush_if, flush. cbn [h_buf h_stack h_top h_next is_nil].
+      rewrite Ex. cbn [andb].
       unfold number_element, element_before_attrs. destruct (number_attrs (N.succ nxt) (order_attrs true a)) as [l n1] eqn:En.
       change (flat_map events_of kids) with (events_of_list kids).
       rewrite (K_all kids); cbn [h_stack h_buf]; try congruence.
       2:{ cbn [tnormal] in Hn1. apply andb_prop in Hn1. tauto. }
       2:{ cbn [tnormal] in Hn1. apply andb_prop in Hn1. tauto. }
       unfold close. cbn [flush h_buf h_stack h_top h_next f_idx f_q f_attrs f_kids rev app append_node].
-      rewrite IH; cbn [h_stack h_buf h_top h_next]; try reflexivity; try assumption.
+      rewrite IH; cbn [h_stack h_buf h_top h_next existsb is_ielem orb]; try reflexivity; try assumption.
       rewrite number_elem, En. cbn [fst snd rev]. rewrite <- app_assoc. reflexivity.
-    + cbn [events_of app run]. unfold step at 1, flush_at_comment, flush_if, flush. cbn [h_buf h_stack h_top h_next append_node].
-      rewrite IH; cbn [h_stack h_buf h_top h_next]; try reflexivity; try assumption.
+    + cbn [elems_ok] in He. cbn [events_of app run]. unfold step at 1, flush_at_comment, flush_if, flush. cbn [h_buf h_stack h_top h_next append_node].
+      rewrite IH; cbn [h_stack h_buf h_top h_next existsb is_ielem orb]; try reflexivity; try assumption.
       cbn [number fst snd rev]. rewrite <- app_assoc. reflexivity.
-    + cbn [events_of app run]. unfold step at 1, flush_at_pi, flush_if, flush. cbn [h_buf h_stack h_top h_next append_node].
-      rewrite IH; cbn [h_stack h_buf h_top h_next]; try reflexivity; try assumption.
+    + cbn [elems_ok] in He. cbn [events_of app run]. unfold step at 1, flush_at_pi, flush_if, flush. cbn [h_buf h_stack h_top h_next append_node].
+      rewrite IH; cbn [h_stack h_buf h_top h_next existsb is_ielem orb]; try reflexivity; try assumption.
       cbn [number fst snd rev]. rewrite <- app_assoc. reflexivity.
 Qed.
 
 Lemma build_canonical : forall ts, top_ok ts = true ->
   build_sax (events_of_list ts) = Some (fst (number_list true first_index ts)).
 Proof.
-  intros ts H. unfold top_ok in H. apply andb_prop in H; destruct H as [H1 H2].
+  intros ts H. unfold top_ok in H. apply andb_prop in H; destruct H as [H H3]. apply andb_prop in H; destruct H as [H1 H2].
   unfold build_sax. rewrite <- (app_nil_r (events_of_list ts)), (top_level ts h_init []); try reflexivity; try assumption.
   cbn [run h_stack h_buf h_top is_nil andb h_init]. rewrite app_nil_r, rev_involutive. reflexivity.
 Qed.
